@@ -308,16 +308,17 @@ MANIFEST_ENTRY = {
             "grids/conditions): C09_call_is_fresh -- in EVERY state, hence after every history, a call of a non-composite transform that "
             "returns yields exactly the evaluation of the parameters (through links / the callable on the current condition), grid and "
             "sign held at that moment; C09_disp_after_replace_partial -- tensor()/disp() right after data_/reset_parameters/condition_/"
-            "grid_ reflect the new state for every non-rigid model and parameter kind; C09_regrid_preserves_world_partial -- dense "
-            "grid_ installs the new grid and the re-expressed parameters; refutations (vm_compute witnesses, reproduced on the "
-            "implementation by the search): linear transform with callable parameters after condition_/reset_parameters, B-spline "
-            "transform with callable parameters after grid_, dense grid_ with a grid differing only in align_corners. Tie: (1) translator "
+            "grid_ reflect the new state for every non-rigid model and parameter kind; C09_regrid_preserves_world -- dense "
+            "grid_ installs the new grid and the re-expressed parameters for EVERY new grid (after repair 4571259; the early-return test "
+            "of SpatialTransform.grid_ is assumed to pass only for the grid already held); refutation (vm_compute witnesses, reproduced on "
+            "the implementation by the search): linear transform with callable parameters after condition_/reset_parameters. Tie: (1) translator "
             "unit TState (Python ast) regenerates the state-affecting skeleton of 37 methods; the model's configuration flags are computed "
             "from it inside Coq and the whole skeleton is pinned (C09_skeleton_unchanged); (2) correspondence: random operation histories "
-            "(<= 12 ops quick, <= 40 thorough; 16 operation kinds, 5 transform classes + composites, 7 parameter kinds, 7 grids) run on "
+            "(<= 12 ops quick, <= 40 thorough; 17 operation kinds incl. condition(args)/condition(kw=...), 5 transform classes + composites, 7 parameter kinds, 7 grids) run on "
             "the real classes and on the model by vm_compute, outputs canonicalised to the parameter/grid version they were computed from "
             "(constant vector fields), error kinds and buffer shapes compared exactly inside Coq, failing histories shrunk.",
-    "note": "Partial: composite calls (SequentialTransform) are covered by correspondence and implementation-side search only (no theorem: "
+    "note": "Found by the search, not modelled (constant fields are insensitive to it): StationaryVelocityFieldTransform.grid_ writes "
+            "exp.align_corners on the ExpFlow module shared with shallow copies. Partial: composite calls (SequentialTransform) are covered by correspondence and implementation-side search only (no theorem: "
             "member updates allocate tensors, the proof needs a reference-validity invariant not yet proved); regrid theorem assumes the "
             "explicit well-formedness `slots_wf` (params stored in at most one of __dict__/_buffers) and covers dense models; B-spline "
             "subdivision and smooth-field regridding are checked numerically by the search (world displacement preserved within 5%); "
